@@ -120,6 +120,56 @@ fn run(input: &str, ctor: Ctor) -> CaseOut {
     }
 }
 
+
+/// `a.clone_from(&b)`: afterwards a is a well-formed copy of b in its own buffer, whatever the two lengths are; both
+/// buffers are freed with the sizes they were allocated with (the allocator checks that when they are dropped)
+fn clone_from_case(a: &str, b: &str) -> R {
+    let want: &str = b.split('\0').next().unwrap();
+    let (live0, _) = alloc::live();
+    let mut x = ReprCString::from(a);
+    let y = ReprCString::from(b);
+    x.clone_from(&y);
+    let (px, py) = (raw_ptr(&x), raw_ptr(&y));
+    ensure!(px != py, "cstring:clone_from_alias", "clone_from made the two strings share a buffer");
+    ensure!(AsRef::<str>::as_ref(&x) == want && x == y && h(&x) == h(&y), "cstring:clone_from_value", "after a.clone_from(b) with a={:?} b={:?}, a reads {:?}", a, b, AsRef::<str>::as_ref(&x));
+    let bs = alloc::block_size(px);
+    ensure!(bs.is_some() && bs.unwrap() >= want.len() + 1, "cstring:clone_from_buffer", "after clone_from the buffer is not a live block large enough for the text and its terminator ({:?})", bs);
+    let buf = unsafe { std::slice::from_raw_parts(px, want.len() + 1) };
+    ensure!(&buf[..want.len()] == want.as_bytes() && buf[want.len()] == 0, "cstring:clone_from_buffer", "buffer after clone_from holds {:02x?}", buf);
+    drop(x);
+    drop(y);
+    let (live2, _) = alloc::live();
+    ensure!(live2 == live0, "cstring:leak", "clone_from: {} allocation(s) still live after both strings were dropped", live2 - live0);
+    Ok(digest(&(a, b)))
+}
+
+fn run_clone_from(a: &str, b: &str) -> CaseOut {
+    alloc::begin();
+    let r = guarded(|| clone_from_case(a, b));
+    let rep = alloc::end();
+    match r {
+        Err(()) => CaseOut::bad("panic", "panicked"),
+        Ok(Err(v)) => CaseOut { obs: 0, nontrivial: true, violation: Some(v) },
+        Ok(Ok(obs)) => CaseOut { obs, nontrivial: true, violation: alloc_violation(&rep).map(|v| (format!("{}:clone_from", v.0), v.1)) },
+    }
+}
+
+fn all_strings(l: usize) -> Vec<String> {
+    let k = SYMBOLS.len();
+    let mut out = Vec::new();
+    for len in 0..=l {
+        for mut idx in 0..k.pow(len as u32) {
+            let mut s = String::new();
+            for _ in 0..len {
+                s.push_str(SYMBOLS[idx % k]);
+                idx /= k;
+            }
+            out.push(s);
+        }
+    }
+    out
+}
+
 fn ctor_of(s: &str) -> Ctor {
     match s {
         "Str" => Ctor::Str,
@@ -153,12 +203,26 @@ fn main() {
         }),
         replay: Box::new(|c: &Value| run(c["input"].as_str().unwrap(), ctor_of(c["ctor"].as_str().unwrap()))),
     };
+    let clone_from = Section {
+        name: "clone_from",
+        explore: Box::new(|cx: &Cx| {
+            let l = cx.tier.pick(2, 3);
+            cx.rule("clone_from", &format!("a.clone_from(&b) for every ordered pair of strings of <= {} symbols over the same alphabet (shorter, equal and longer sources): a reads as b, owns a well-formed buffer of its own, both buffers are freed with their allocated sizes, nothing leaks", l));
+            let all = all_strings(l);
+            for a in &all {
+                for b in &all {
+                    cx.eval("clone_from", &json!({"a": a, "b": b}), || run_clone_from(a, b));
+                }
+            }
+        }),
+        replay: Box::new(|c: &Value| run_clone_from(c["a"].as_str().unwrap(), c["b"].as_str().unwrap())),
+    };
     explore::run_main(CheckDef {
         property: "C14",
         level: "exploration",
         assumptions: vec!["inputs longer than the bound are not covered".into(), "the tracking allocator's red zone (0xA5.., NUL-terminated) makes an over-read terminate deterministically".into()],
         sections: vec![mk("from_str", Ctor::Str), mk("from_string", Ctor::String), mk("from_bytes", Ctor::Bytes),
-            mk("from_string_spare1", Ctor::StringSpare1), mk("from_string_spare7", Ctor::StringSpare7), mk("from_string_spare64", Ctor::StringSpare64)],
+            mk("from_string_spare1", Ctor::StringSpare1), mk("from_string_spare7", Ctor::StringSpare7), mk("from_string_spare64", Ctor::StringSpare64), clone_from],
         no_isolation: false,
     });
 }
